@@ -617,3 +617,82 @@ Proof.
   rewrite Forall_forall in F'. specialize (F' _ (nth_error_In _ _ B)). simpl in F'.
   specialize (F' k ltac:(now rewrite map_length)). exact F'.
 Qed.
+
+(* ---------------------------------------------------------------------- *)
+(* the error direction of the per-site body                                 *)
+(* ---------------------------------------------------------------------- *)
+Lemma walk_up_no_err fuel : forall parent bottom par fb u,
+  arr_is parent par -> arr_is bottom fb -> zlen parent = zlen bottom ->
+  (forall v, 0 <= v < zlen parent -> par v = NULL \/ 0 <= par v < zlen parent) ->
+  (u = NULL \/ 0 <= u < zlen parent) ->
+  (exists r, walk_up fuel parent bottom u = Ok r) \/ walk_up fuel parent bottom u = Fuel.
+Proof.
+  induction fuel as [|f IH]; intros parent bottom par fb u Hp Hb Zl Cl Ru; simpl; [now right|].
+  destruct (u =? NULL) eqn:E; [left; eauto|]. apply Z.eqb_neq in E. destruct Ru as [?|Ru]; [contradiction|].
+  rewrite (Hb u) by (rewrite <- Zl; auto). simpl. destruct (fb u =? NULL); [|left; eauto].
+  rewrite (Hp u Ru). simpl. eapply IH; eauto.
+Qed.
+
+Lemma second_pass_no_err fuel parent bottom par fb nodes_of : forall j mparent fm,
+  arr_is parent par -> arr_is bottom fb -> zlen parent = zlen bottom ->
+  (forall v, 0 <= v < zlen parent -> par v = NULL \/ 0 <= par v < zlen parent) ->
+  arr_is mparent fm -> (forall u, In u nodes_of -> 0 <= u < zlen parent) ->
+  0 <= j -> j + zlen nodes_of <= zlen mparent ->
+  (exists mp', site_second_pass fuel parent bottom nodes_of j mparent = Ok mp') \/
+  site_second_pass fuel parent bottom nodes_of j mparent = Fuel.
+Proof.
+  induction nodes_of as [|nd tl IH]; intros j mparent fm Hp Hb Zl Cl Hm Ru J0 Jn; simpl; [left; eauto|].
+  rewrite zlen_cons in Jn. pose proof (zlen_nonneg tl) as Ztl.
+  rewrite (Hm j) by lia. simpl.
+  assert (Rnd : 0 <= nd < zlen parent) by (apply Ru; now left).
+  assert (Rt : forall u, In u tl -> 0 <= u < zlen parent) by (intros; apply Ru; now right).
+  destruct (fm j =? NULL).
+  - rewrite (Hp nd Rnd). simpl.
+    destruct (walk_up_no_err fuel parent bottom par fb (par nd) Hp Hb Zl Cl (Cl nd Rnd)) as [[r W]|W]; rewrite W; simpl; [|now right].
+    destruct (walk_up_spec fuel parent bottom par fb (par nd) r Hp Hb Zl Cl (Cl nd Rnd) W) as [Rr _].
+    destruct (r =? NULL) eqn:Er.
+    + eapply IH; eauto; lia.
+    + apply Z.eqb_neq in Er. destruct Rr as [?|[Rr _]]; [contradiction|].
+      rewrite (Hb r) by (rewrite <- Zl; auto). simpl.
+      destruct (set_spec mparent j (fb r)) as (mp1 & Es & _); [lia|]. rewrite Es. simpl.
+      destruct (arr_is_set _ _ _ _ _ Hm Es) as [A1 Z1].
+      eapply (IH (j + 1) mp1); eauto; try lia; try (rewrite Z1; lia).
+  - simpl. eapply IH; eauto; lia.
+Qed.
+
+(* do_site returns Ok, the documented TSK_ERR_MUTATION_PARENT_AFTER_CHILD, or (model only) runs
+   out of walk fuel; and the error means that some mutation's nearest mutation above has a
+   larger row id *)
+Theorem do_site_err fuel parent par (rank : Z -> Z) M nodes_of first bottom mparent fm c :
+  arr_is parent par ->
+  (forall v, 0 <= v < zlen parent -> par v = NULL \/ (0 <= par v < zlen parent /\ rank v < rank (par v))) ->
+  (forall v, 0 <= v < zlen parent -> rank v <= M) ->
+  arr_is bottom (fun _ => NULL) -> zlen parent = zlen bottom ->
+  arr_is mparent fm -> (forall i, in_block first (zlen nodes_of) i -> fm i = NULL) ->
+  (forall u, In u nodes_of -> 0 <= u < zlen parent) ->
+  0 <= first -> first + zlen nodes_of <= zlen mparent ->
+  do_site fuel parent nodes_of first bottom mparent = Err c ->
+  c = E_MUTATION_PARENT_AFTER_CHILD.
+Proof.
+  intros Hp Cl Bd Hb Zpb Hm Blk Ru F0 Fn D. unfold do_site in D.
+  assert (Cl' : forall v, 0 <= v < zlen parent -> par v = NULL \/ 0 <= par v < zlen parent).
+  { intros v Hv. destruct (Cl v Hv) as [E|[R _]]; auto. }
+  destruct (first_pass_refines nodes_of first bottom mparent _ _ Hb Hm) as (b1 & m1 & E1 & Ab1 & Am1 & Zb1 & Zm1); auto.
+  { intros u Hu. rewrite <- Zpb. auto. }
+  rewrite E1 in D. simpl in D.
+  assert (S2 : (exists m2, (if 1 <? zlen nodes_of then site_second_pass fuel parent b1 nodes_of first m1 else Ok m1) = Ok m2 /\
+                           zlen m2 = zlen mparent /\ exists fm2, arr_is m2 fm2) \/
+               (if 1 <? zlen nodes_of then site_second_pass fuel parent b1 nodes_of first m1 else Ok m1) = Fuel).
+  { destruct (1 <? zlen nodes_of).
+    - destruct (second_pass_no_err fuel parent b1 par _ nodes_of first m1 _ Hp Ab1 ltac:(congruence) Cl' Am1)
+        as [[m2 E2]|E2]; auto; try lia.
+      left. exists m2. split; auto.
+      destruct (second_pass_spec fuel parent b1 par _ nodes_of first m1 _ m2 Hp Ab1 ltac:(congruence) Cl' Am1)
+        as (Z2 & fm2 & A2 & _); auto; try lia. split; [congruence | eauto].
+    - left. exists m1. split; auto. split; eauto. }
+  destruct S2 as [(m2 & E2 & Z2 & fm2 & A2)|E2]; rewrite E2 in D; simpl in D; [|discriminate].
+  assert (Rb1 : forall u, In u nodes_of -> 0 <= u < zlen b1) by (intros u Hu; rewrite Zb1, <- Zpb; auto).
+  pose proof (reset_spec nodes_of first b1 m2 _ fm2 Ab1 A2 Rb1 F0 ltac:(lia)) as RS.
+  destruct (site_reset nodes_of first b1 m2) as [b3|c'| |]; simpl in D; try discriminate; try contradiction.
+  inversion D; subst c'. apply RS.
+Qed.
